@@ -95,7 +95,7 @@ theorem inv_run {κ : Nat → String} {s : State} (h : InvK κ s) (hb : Boundary
   | extendAtoms o src =>
     apply post_map_good
     simp only [Op.idsOk, Bool.and_eq_true, decide_eq_true_eq] at hids
-    exact Post.mono (inv_extendWith h o src (hb src hids.2)) (fun _ _ hq => Good.of_made hq)
+    exact Post.mono (inv_extendWith h o src (hb src hids.2).1) (fun _ _ hq => Good.of_made hq)
   | deepcopy o =>
     apply post_map_good
     exact Post.mono (inv_deepcopy h o) (fun _ _ hq => Good.of_made hq)
@@ -256,7 +256,7 @@ theorem reachable_rectangular (ops : List Op) (o : Nat) (p : PropRef)
 theorem inv_atype_ge_one (s : State) (h : Inv s) (o : Nat) (ho : o < s.objs.length) :
     ∃ a, (s.obj o).find "atype" = some a ∧ ∀ c ∈ (arrVal s a).data, ∃ q, c.num? = some q ∧ 1 ≤ q := by
   obtain ⟨⟨κ, hinv⟩, hb⟩ := h
-  have := hb o ho
+  have := (hb o ho).1
   cases hf : (s.obj o).find "atype" with
   | none => simp [hf] at this
   | some a =>
